@@ -14,6 +14,7 @@ LEVEL_TEXT = (
     '(counted in the evidence) with seeded RIB histories before, during and after the loss; on the first session that '
     'establishes afterwards the reference-decoded peer table must equal the reported Adj-RIB-Out and the intended table, '
     'with exactly one End-of-RIB per negotiated family after the routes.'
+    ' Labelled and VPN routes with their End-of-RIB markers; whole attribute sets compared.'
 )
 LEVEL_NOTE = 'trusts: simulated TCP model (FIN queued behind in-flight bytes, RST discards), reference decoder; establishment itself is not judged (conditional property)'
 DESIGN_REF = 'DESIGN.md section 5, C11'
